@@ -138,7 +138,7 @@ func NewRun(prop string) *Run {
 
 func fatal(f string, a ...any) {
 	fmt.Fprintf(os.Stderr, "harness error: "+f+"\n", a...)
-	os.Exit(2)
+	Exit(2)
 }
 
 // Fatal stops the check with a harness error (exit 2): the machinery, not the property, failed.
@@ -348,12 +348,12 @@ func (r *Run) Finish() {
 		}
 		if r.evals == 0 {
 			fmt.Println("replay: case id not found in the enumeration")
-			os.Exit(2)
+			Exit(2)
 		}
 		if unknown > 0 || len(r.viol) > 0 {
-			os.Exit(1)
+			Exit(1)
 		}
-		os.Exit(0)
+		Exit(0)
 	}
 	cov := map[string]any{}
 	for k, v := range r.extra {
@@ -406,9 +406,9 @@ func (r *Run) Finish() {
 		fmt.Println(l)
 	}
 	if unknown > 0 {
-		os.Exit(1)
+		Exit(1)
 	}
-	os.Exit(0)
+	Exit(0)
 }
 
 func fmtOutcomes(m map[string]int64) string {
@@ -429,3 +429,28 @@ func fmtOutcomes(m map[string]int64) string {
 
 // Evaluations returns the number of executions counted so far.
 func (r *Run) Evaluations() int64 { return atomic.LoadInt64(&r.evals) }
+
+var (
+	atExitMu sync.Mutex
+	atExit   []func()
+)
+
+// AtExit registers f to run before the process exits through this package (Finish, Fatal, worker
+// exits): deferred functions of main do not run on os.Exit, so scratch directories are removed here.
+func AtExit(f func()) {
+	atExitMu.Lock()
+	atExit = append(atExit, f)
+	atExitMu.Unlock()
+}
+
+// Exit runs the AtExit functions and exits.
+func Exit(code int) {
+	atExitMu.Lock()
+	fs := atExit
+	atExit = nil
+	atExitMu.Unlock()
+	for _, f := range fs {
+		f()
+	}
+	os.Exit(code)
+}
